@@ -363,3 +363,8 @@ def r9_memory_lifecycle(ctx):
 
 
 RULES.append(r9_memory_lifecycle)
+
+from .common import lazy  # noqa: E402
+RULES += [lazy("C14", "r6_payload_not_shared", "placeholders appended for one node must not leak into the payload of another"),
+          lazy("C12", "r2_writer", "an input reference is written in the form node2task reads (bare name = default output only)"),
+          lazy("C12", "r1_deserialise", "reader side of the same reference forms")]
